@@ -7,7 +7,7 @@ from vf.spec import Ok, Prim, Program, Union_, Unspecified, canon, match_img
 PROP = "C14"
 SHARDS = {"quick": 8, "thorough": 16}
 TIME_CAP = {"quick": 70, "thorough": 900}
-REQUIRED = ["monotonic_checks", "strict_reject_coerced_accept", "model_agree_accept", "model_agree_reject", "custom_coercer_wrong", "custom_coercer_right", "global_setting_checks", "programs"]
+REQUIRED = ["monotonic_checks", "strict_reject_coerced_accept", "model_agree_accept", "model_agree_reject", "custom_coercer_wrong", "custom_coercer_right", "global_setting_checks", "programs", "discriminated_families", "discriminated_monotonic_checks"]
 RULE = ("C01 program space x (type-relevant atoms + numeric strings (' 12 ', '1_000', '1e3', 'nan', '1.5', '-3') + every boolean word in lower/upper/mixed "
         "case + near-misses ('maybe', '2') + '' and whitespace), also substituted at every position of model-valid data; each datum is run strict and "
         "with coerce=True. A case = (type signature, datum); non-trivial when the two runs differ or the type is not a bare primitive; distinct by hash.")
@@ -172,6 +172,8 @@ def table_monitor(env):
 
 
 def run(env):
+    from vf import disc
+    disc.run_family(env, disc.check_c14, env.n(96, 4000))  # discriminated-union families first (their own budget)
     harness.tag_errors(True)
     table_monitor(env)
     rng = env.rng
